@@ -1,6 +1,7 @@
 package main
 
 import (
+	"hash/fnv"
 	"math"
 	"encoding/json"
 	"flag"
@@ -887,12 +888,19 @@ func firstNonEmpty(a ...string) string {
 }
 
 func sanitize(s string) string {
-	return strings.Map(func(r rune) rune {
+	out := strings.Map(func(r rune) rune {
 		if r >= 'a' && r <= 'z' || r >= 'A' && r <= 'Z' || r >= '0' && r <= '9' || r == '.' || r == '_' || r == '-' {
 			return r
 		}
 		return '_'
 	}, s)
+	// file names derived from long symbol names (generic shapes) must stay below NAME_MAX
+	if len(out) > 150 {
+		h := fnv.New32a()
+		h.Write([]byte(s))
+		out = fmt.Sprintf("%s_%08x_%s", out[:90], h.Sum32(), out[len(out)-40:])
+	}
+	return out
 }
 
 func matchKnown(known []KnownFinding, prop string, v *Violation) *KnownFinding {
